@@ -48,6 +48,11 @@ PROP = {
         U("dlt_args", "c03_u2_arg_iter_any_12", Q, "arbitrary payload <= 12 B, verbose or not, both byte orders", "U2 argument iterator: slices inside payload, terminates", covers=2),
         U("dlt_args", "c03_u2_arg_iter_any_16", T, "arbitrary payload <= 16 B", "U2 argument iterator", covers=2, timeout=3000, mem_gb=24),
         U("dlt_ctrl", "c03_u3_log_info_s8_12", Q, "status 8 (unsupported), payload <= 12 B", "U3 get-log-info parser: unsupported status ignored", covers=2),
+        U("dlt_ctrl", "c03_u3_log_info_s6_c1_14", T, "status 6 (level + trace status), 1 announced application, payload <= 14 B", "U3 get-log-info parser", covers=2, timeout=3000, mem_gb=30),
+        U("dlt_ctrl", "c03_u3_log_info_s7_c1_16", T, "status 7 (with descriptions), 1 announced application, payload <= 16 B", "U3 get-log-info parser", covers=2, timeout=3000, mem_gb=30),
+        U("dlt_ctrl", "c03_u3_log_info_s4_c1_13", T, "status 4, 1 announced application, payload <= 13 B", "U3 get-log-info parser", covers=2, timeout=3000, mem_gb=30),
+        U("dlt_ctrl", "c03_u3_log_info_s5_c1_13", T, "status 5, 1 announced application, payload <= 13 B", "U3 get-log-info parser", covers=2, timeout=3000, mem_gb=30),
+        U("dlt_ctrl", "c03_u3_log_info_s3_c2_14", T, "status 3, 2 announced applications, payload <= 14 B", "U3 get-log-info parser", covers=2, timeout=3000, mem_gb=30),
         U("dlt_ctrl", "c03_u3_log_info_s3_12", T, "status 3 (ids only), payload <= 12 B, announced count <= 3", "U3 get-log-info parser", covers=2, timeout=3300, mem_gb=40, cost=900),
         U("dlt_ctrl", "c03_u3_fixed_payloads", Q, "arbitrary payload <= 16 B", "U3 unregister-context / connection-info / timezone / sw-version", covers=2),
         U("lc", "lc_update_step_pl6", Q, "any record with I x any message, payload <= 6 B", "U4 Lifecycle::update: no panic/overflow, I preserved", covers=4),
